@@ -56,6 +56,7 @@ REQUIRED_COUNTERS = ['decoders_constructed', 'decode_calls',
                      'isolated_children_ok',
                      'decode_calls_with_bool_syndrome',
                      'decoders_with_numpy_error_rate',
+                     'cells_at_error_rate_0_or_1',
                      'same_process_deformation_variants']
 SHARD_TIMEOUT = {'quick': 900, 'thorough': 3600}
 
@@ -70,6 +71,7 @@ NOISES = {
     'biasZ3': (0.125, 0.125, 0.75),
     'biasZ30': (1 / 62, 1 / 62, 30 / 31),
     'skew': (0.5, 0.3, 0.2),
+    'xy': (0.5, 0.5, 0.0),
 }
 
 SIZES_Q = {
@@ -199,6 +201,29 @@ def plan(tier, seed):
                                     'rate': rate, 'nrand': nr, 'seed': seed,
                                     'tier': tier,
                                     'cost': per * (nr + 20) + 50})
+    # the end points of the error-rate axis (a sweep that starts at 0 or
+    # ends at 1), for every decoder on one or two small lattices
+    ends = {'MatchingDecoder': [('Toric2DCode', (3, 4)),
+                                ('RotatedPlanar2DCode', (3, 3))],
+            'UnionFindDecoder': [('Toric2DCode', (3, 3))],
+            'BeliefPropagationOSDDecoder': [('Toric2DCode', (3, 4)),
+                                            ('Planar2DCode', (2, 3))],
+            'MemoryBeliefPropagationDecoder': [('Planar2DCode', (2, 3))],
+            'SweepMatchDecoder': [('Toric3DCode', (2, 2, 3))],
+            'RotatedSweepMatchDecoder': [('RotatedPlanar3DCode', (2, 2, 2))],
+            'XCubeMatchingDecoder': [('XCubeCode', (2, 2, 3))]}
+    for dname, lst in ends.items():
+        if dname not in decs:
+            continue
+        for cls, size in lst:
+            for noise in ('depol', 'pureZ', 'pureX', 'xy', 'pureY'):
+                for rate in (0.0, 1.0):
+                    tasks.append({
+                        'decoder': dname, 'cls': cls, 'size': list(size),
+                        'code_def': [None, {}], 'noise': noise,
+                        'noise_def': [None, {}], 'rate': rate,
+                        'nrand': 6, 'seed': seed, 'tier': tier,
+                        'end_point': True, 'cost': 400})
     # every code-deformation variant of one (class, size) decoded by fresh
     # BP-OSD / MBP objects inside ONE process, in both orders (anything
     # shared between decoder instances shows here)
@@ -373,7 +398,20 @@ def run_cell(task, out):
             np.zeros(0, dtype='uint8')
         try:
             with contextlib.redirect_stdout(io.StringIO()):
-                c = dec.decode(s.copy())
+                if task['decoder'] == 'XCubeMatchingDecoder':
+                    with LoopWatch() as lw:
+                        c = dec.decode(s.copy())
+                    out.count('termination_monitor_states', lw.states)
+                else:
+                    c = dec.decode(s.copy())
+        except NonTermination as e:
+            tag = 'decode-does-not-terminate'
+            if p * (max(rx, rz) + ry) >= 0.5:
+                tag += '/flip-marginal-at-least-half'
+            out.violation(mech_of(task, tag), str(e),
+                          dict(desc, syndrome=s if m <= 64 else None,
+                               label=lab))
+            break
         except Exception as e:
             where = panqec_frame(e)
             if where is None:
@@ -401,7 +439,12 @@ def run_cell(task, out):
                           f'correction holds values {np.unique(c)[:5]}', w)
             continue
         c_int = gf2.pack(c)
-        if s_int == 0:
+        if s_int == 0 and p * (max(rx, rz) + ry) >= 0.5:
+            # a flip marginal of 1/2 or more: the most likely error with the
+            # trivial syndrome need not be trivial (outside C09's domain
+            # too); only shape / validity / syndrome are judged here
+            out.count('zero_syndrome_decodes_at_marginals_above_half')
+        elif s_int == 0:
             out.count('zero_syndrome_decodes')
             if c_int != 0:
                 out.violation(
@@ -422,8 +465,63 @@ def run_cell(task, out):
     if len(set(task['size'])) > 1:
         out.count('rectangular_cells')
     out.count('cells_' + task['decoder'])
+    if task.get('end_point'):
+        out.count('cells_at_error_rate_0_or_1')
     out.case(desc, nontrivial=nonzero_seen > 0, n=len(synds),
              sample=dict(desc, n=n, syndromes=len(synds)))
+
+
+class NonTermination(Exception):
+    pass
+
+
+class LoopWatch:
+    """Termination monitor on logical steps for XCubeMatchingDecoder's path
+    walker (get_matched_pairs): the loop is deterministic in its local state,
+    so the same (line, locals) seen twice within one call proves that the
+    call never returns.  Installed with sys.settrace around one decode."""
+    KEYS = ('s', 's_prime', 'prev_qubit', 'continue_search')
+
+    def __init__(self):
+        self.states = 0
+
+    def __enter__(self):
+        import sys
+        self.prev = sys.gettrace()
+        sys.settrace(self.glob)
+        return self
+
+    def __exit__(self, *a):
+        import sys
+        sys.settrace(self.prev)
+
+    def glob(self, frame, event, arg):
+        co = frame.f_code
+        if co.co_name == 'get_matched_pairs' and \
+                'xcube' in co.co_filename:
+            self.seen = set()
+            # states are sampled at the head of the while loop only: there
+            # no for-iterator is alive, so the locals determine the future
+            import inspect
+            src, first = inspect.getsourcelines(co)
+            self.heads = {first + k for k, ln in enumerate(src)
+                          if ln.strip().startswith('while ')}
+            return self.local
+        return None
+
+    def local(self, frame, event, arg):
+        if event == 'line' and frame.f_lineno in self.heads:
+            loc = frame.f_locals
+            st = (frame.f_lineno, len(loc.get('pairs', ())),
+                  len(loc.get('seen_syndromes', ()))) + tuple(
+                int(loc[k]) if k in loc else None for k in self.KEYS)
+            self.states += 1
+            if st in self.seen:
+                raise NonTermination(
+                    f'get_matched_pairs revisits the state {st}: the walk '
+                    'along the matched qubits runs round a closed loop')
+            self.seen.add(st)
+        return self.local
 
 
 def hash_cell(desc):
@@ -640,6 +738,10 @@ def classify(v):
             m.endswith('/odd-size-code-is-not-css') and \
             'not CSS' in v['what']:
         return 'C05:RotatedSweepMatchDecoder/RotatedToric3DCode/odd-size-not-css'
+    if m.startswith('XCubeMatchingDecoder/XCubeCode/') and m.endswith(
+            '/decode-does-not-terminate/flip-marginal-at-least-half'):
+        return ('C05:XCubeMatchingDecoder/closed-loop-walk-at-marginal-'
+                'above-half')
     return None
 
 
